@@ -30,6 +30,9 @@ func runC15(idx int, rng *rand.Rand, tier string) []Case {
 	callers := []int{1, 2, 3, 8, 16, 64}[rng.Intn(6)]
 	n := []int{0, 1, 2, 7, 100, 1000, 5000}[rng.Intn(7)]
 	kind := idx % 3
+	if idx%8 == 5 {
+		return c15Attack(idx, rng)
+	}
 	var stamp int64
 	tick := func() int64 { return atomic.AddInt64(&stamp, 1) }
 	if kind == 2 {
@@ -69,6 +72,7 @@ func runC15(idx int, rng *rand.Rand, tier string) []Case {
 		}
 		w.Zs(all)
 		w.Bool(false)
+		w.Bool(callers == 1) // one caller: the draws are listed in the order they were made
 		c.Tag = "static;nt"
 		c.Dist = fmt.Sprintf("static/callers%d/k%d/n%d", callers, k, sizeClass(len(all)))
 		c.Sample = map[string]interface{}{"targeter": "static", "callers": callers, "targets": k, "draws": len(all)}
@@ -161,5 +165,131 @@ func runC15(idx int, rng *rand.Rand, tier string) []Case {
 	c.Tag = format + ";nt"
 	c.Dist = fmt.Sprintf("%s/callers%d/n%d", format, callers, sizeClass(n))
 	c.Sample = map[string]interface{}{"targeter": format, "callers": callers, "targets": n, "calls": total}
+	return []Case{c}
+}
+
+
+// a real attack drawing from a stream targeter: every request the transport sees must be one
+// target of the input, whole - its own URL, body and header lines and nobody else's
+type c15RT struct {
+	mu   sync.Mutex
+	reqs []c15Req
+}
+
+type c15Req struct {
+	id, body int64
+	xids     []int64
+	owners   []int64
+	method   bool
+}
+
+func (rt *c15RT) RoundTrip(r *http.Request) (*http.Response, error) {
+	q := c15Req{id: -1, body: -1, method: r.Method == "POST"}
+	if v, err := strconv.ParseInt(strings.TrimPrefix(r.URL.String(), "http://t.example/"), 10, 64); err == nil {
+		q.id = v
+	}
+	if r.Body != nil {
+		var b bytes.Buffer
+		b.ReadFrom(r.Body)
+		r.Body.Close()
+		if v, err := strconv.ParseInt(b.String(), 10, 64); err == nil {
+			q.body = v
+		}
+	}
+	for k, vs := range r.Header {
+		switch {
+		case k == "X-Id":
+			for _, v := range vs {
+				n, err := strconv.ParseInt(v, 10, 64)
+				if err != nil {
+					n = -1
+				}
+				q.xids = append(q.xids, n)
+			}
+		case strings.HasPrefix(k, "X-Own-"):
+			n, err := strconv.ParseInt(strings.TrimPrefix(k, "X-Own-"), 10, 64)
+			if err != nil {
+				n = -1
+			}
+			for range vs {
+				q.owners = append(q.owners, n)
+			}
+		}
+	}
+	rt.mu.Lock()
+	rt.reqs = append(rt.reqs, q)
+	rt.mu.Unlock()
+	return &http.Response{StatusCode: 200, Status: "200 OK", Proto: "HTTP/1.1", ProtoMajor: 1, ProtoMinor: 1,
+		Header: http.Header{}, Body: http.NoBody, Request: r}, nil
+}
+
+func c15Attack(idx int, rng *rand.Rand) []Case {
+	n := []int{1, 2, 7, 50, 300, 1500}[rng.Intn(6)]
+	format := []string{"json", "http"}[rng.Intn(2)]
+	var src bytes.Buffer
+	owned := 0
+	for i := 0; i < n; i++ {
+		h := http.Header{"X-Id": {strconv.Itoa(i)}}
+		switch rng.Intn(3) {
+		case 1:
+			h["X-Own-"+strconv.Itoa(i)] = []string{"a"}
+			owned++
+		case 2:
+			h["X-Own-"+strconv.Itoa(i)] = []string{"a", "b"}
+			owned += 2
+		}
+		if format == "json" {
+			t := vegeta.Target{Method: "POST", URL: "http://t.example/" + strconv.Itoa(i), Header: h, Body: []byte(strconv.Itoa(i))}
+			vegeta.NewJSONTargetEncoder(&src).Encode(&t)
+		} else {
+			fmt.Fprintf(&src, "POST http://t.example/%d\n", i)
+			for k, vs := range h {
+				for _, v := range vs {
+					fmt.Fprintf(&src, "%s: %s\n", k, v)
+				}
+			}
+			src.WriteString("\n")
+		}
+	}
+	var tr vegeta.Targeter
+	if format == "json" {
+		tr = vegeta.NewJSONTargeter(bytes.NewReader(src.Bytes()), nil, nil)
+	} else {
+		tr = vegeta.NewHTTPTargeter(bytes.NewReader(src.Bytes()), nil, nil)
+	}
+	rt := &c15RT{}
+	workers := []uint64{1, 2, 8, 32}[rng.Intn(4)]
+	atk := vegeta.NewAttacker(vegeta.Client(&http.Client{Transport: rt}), vegeta.Workers(workers), vegeta.MaxWorkers(workers+uint64(rng.Intn(8))))
+	results := 0
+	stuck := false
+	done := make(chan struct{})
+	go func() {
+		for range atk.Attack(tr, vegeta.Rate{Freq: 0, Per: time.Second}, 0, "c15") {
+			results++
+		}
+		close(done)
+	}()
+	select {
+	case <-done:
+	case <-time.After(30 * time.Second):
+		stuck = true
+		atk.Stop()
+	}
+	rt.mu.Lock()
+	reqs := append([]c15Req(nil), rt.reqs...)
+	rt.mu.Unlock()
+	var c Case
+	w := &c.W
+	w.Z(3)
+	w.I(n)
+	w.I(len(reqs))
+	for _, q := range reqs {
+		w.Z(q.id); w.Z(q.body); w.Zs(q.xids); w.Zs(q.owners); w.Bool(q.method)
+	}
+	w.Bool(format == "json")
+	w.Bool(stuck)
+	c.Tag = "attack." + format + ";nt"
+	c.Dist = fmt.Sprintf("attack/%s/workers%d/n%d", format, workers, sizeClass(n))
+	c.Sample = map[string]interface{}{"targeter": format, "workers": workers, "targets": n, "requests_seen": len(reqs), "own_header_lines": owned}
 	return []Case{c}
 }
